@@ -152,6 +152,29 @@ def boxOpenEasyInplace (P : Prims) (ct nonce pk sk : Bytes) : Opened :=
     | .ok () => ⟨.ok (), rotateLeft (mac ++ r.buf) MACBYTES⟩
     | _ => ⟨r.res, mac ++ r.buf⟩
 
+/-! ### crypto_box.rs, precomputed-key forms
+
+`crypto_box_detached_afternm`, `…_afternm_inplace`, `crypto_box_open_detached_afternm` and
+`…_open_detached_afternm_inplace` are one-line calls of the secretbox functions with the precomputed
+key (there is no `easy` `afternm` form in dryoc); `crypto_box_(open_)detached(_inplace)` compute
+`crypto_box_beforenm` and call them. -/
+
+/-- `crypto_box_detached_afternm(ciphertext, mac, message, nonce, key)` -/
+def boxDetachedAfternm (P : Prims) (ct msg nonce key : Bytes) : Outcome (Bytes × Bytes) :=
+  detached P ct msg nonce key
+
+/-- `crypto_box_detached_afternm_inplace(ciphertext, mac, nonce, key)` -/
+def boxDetachedAfternmInplace (P : Prims) (data nonce key : Bytes) : Bytes × Bytes :=
+  detachedInplace P data nonce key
+
+/-- `crypto_box_open_detached_afternm(message, mac, ciphertext, nonce, key)` -/
+def boxOpenDetachedAfternm (P : Prims) (m mac ct nonce key : Bytes) : Opened :=
+  openDetached P m mac ct nonce key
+
+/-- `crypto_box_open_detached_afternm_inplace(data, mac, nonce, key)` -/
+def boxOpenDetachedAfternmInplace (P : Prims) (data mac nonce key : Bytes) : Opened :=
+  openDetachedInplace P data mac nonce key
+
 /-- `crypto_box_seal_nonce` -/
 def sealNonce (P : Prims) (epk rpk : Bytes) : Bytes := P.h24 (epk ++ rpk)
 
